@@ -278,7 +278,9 @@ def dea_table(ctx, ex):
             obj = D(limexp=limexp)
             s = [Poly.sym('s%d' % k) for k in range(nterms)]
             problems = []
+            from ..engine import budget
             try:
+              with budget(20, 'Dea table limexp=%d' % limexp):
                 for n in range(nterms):
                     val, err = obj(s[n])
                     if n < 2:
@@ -298,6 +300,10 @@ def dea_table(ctx, ex):
                         break
             except InterpRaise as exc:
                 problems.append('raises %s: %s' % (exc.exc_name, exc.msg[:80]))
+            except AnalysisError as exc:
+                if not problems:
+                    rep.undecided('R-DEA-TABLE', 'extrapolation.Dea._dea', exc, 'limexp=%d/prefer_new=%s' % (limexp, prefer_new))
+                    continue
             rep.check(not problems, 'R-DEA-TABLE', 'extrapolation.Dea._dea', where,
                       {'limexp': limexp, 'terms_fed': nterms, 'problems': problems[:2]},
                       'every value is an entry of the exact epsilon table of the terms in the table',
